@@ -114,7 +114,7 @@ class ProgGen:
         if k == "num": return self.num(d1)
         if k == "list": return self.lst(d1)
         if k == "cmp": return "(%s %s %s)" % (r.choice(["<", "<=", ">", ">="]), self.num(d1), self.num(d1))
-        if k == "eq": return "(%s %s %s)" % (r.choice(["equal", "equal", "eq"]), r.choice([self.var(), "'x", "nil", "'a"]), r.choice([self.var(), "'x", "nil", "'a"]))
+        if k == "eq": return "(equal %s %s)" % (r.choice([self.var(), "'x", "nil", "'a"]), r.choice([self.var(), "'x", "nil", "'a"])) if r.random() < 0.7 else "(eq %s %s)" % (r.choice(["'x", "nil", "'a", "t"]), r.choice(["'x", "nil", "'a"]))
         if k == "while":
             self.wdepth += 1
             w = "w%d" % self.wdepth
